@@ -21,8 +21,9 @@ class NotifyServer:
 
         while True:
             try:
-                data = await reader.read(32)
-                if not data:
+                try:
+                    data = await reader.readexactly(32)
+                except asyncio.IncompleteReadError:
                     break
                 self.log.debug(
                     "Broadcasting %s to %s connections",
@@ -80,8 +81,9 @@ class NotifyClient:
 
         while True:
             try:
-                data = await reader.read(32)
-                if not data:
+                try:
+                    data = await reader.readexactly(32)
+                except asyncio.IncompleteReadError:
                     break
                 event = await self.storage.get_event(data.hex())
                 if event:
